@@ -1,5 +1,5 @@
 (* C04 — executable model of gomacro's untyped constant evaluation and typed-context conversion
-   (code as it is AFTER the fix: commits C04-1..C04-5):
+   (code as it is AFTER the fix: commits C04-1..C04-6):
      fast/binary.go   Comp.BinaryExprUntyped, untypedClass, Comp.ShiftUntyped
      fast/unary.go    Comp.UnaryExprUntyped
      fast/convert.go  Comp.convert (untyped operand)
@@ -191,12 +191,15 @@ Definition is_intkind (k : kind) : bool := match k with KInt | KRune => true | _
 (* Lit.Convert(TypeOfBool) *)
 Definition as_bool (l : lit) : option bool := match lval l with CBool b => Some b | _ => None end.
 
-(* Comp.ShiftUntyped (after fix C04-4): None = c.Errorf *)
+(* go/types' bound on constant shift counts, adopted by fix C04-6 *)
+Definition shift_bound : Z := 1023 - 1 + 52.
+
+(* Comp.ShiftUntyped (after fixes C04-4, C04-6): None = c.Errorf *)
 Definition shift_untyped (left : bool) (x y : lit) : option lit :=
   match to_int (lval y) with
   | None => None
   | Some n =>
-    if negb (uint64_exact n) then None else
+    if negb (uint64_exact n) || (shift_bound <? n) then None else
     let r :=
       match lkind x with
       | KInt | KRune => Some (lval x, lkind x)
